@@ -15,7 +15,9 @@
 (* with replica suffixes, dotted/dashed names, the same name in two stages)*)
 (* stage, replicate request (none / literal 1,2,3,11 / through a variable   *)
 (* defined at global, stage or component scope -- also by OTHER stages and *)
-(* by SIBLING components with other values, which must not leak), aggregate*)
+(* by SIBLING components with other values, which must not leak; on the    *)
+(* default platform or on platform "other", whose global scope beats the   *)
+(* default platform's stage scope -- the layering of Layering.tla), aggregate*)
 (* flag (literal or through a variable with the same scoping), and an      *)
 (* ordered list of references to components built earlier (so the workflow *)
 (* is acyclic by construction; the document order fed to the code is the   *)
